@@ -23,6 +23,8 @@ structure DState where
   recent : List Nat := []
   srv    : Server.Srv := Server.Srv.init 0 0
   conn   : Conn.St := Conn.St.init false false
+  sconn  : Sieve.Conn := ⟨none, false, 0⟩
+  sstore : Sieve.Store := []
   lbox   : Mailbox.MBox := Mailbox.MBox.new
   lobs   : List (Sync.View × Option Nat) := []
 
@@ -74,6 +76,32 @@ def showConnSt (s : Conn.St) : String :=
   (match s.selected with | some (n, ro) => s!"{n}:{if ro then 1 else 0}" | none => "-") ++ " " ++
   (if s.closed then "closed" else "open") ++ " " ++ (if s.loginOff then "nomech" else "mech")
 
+def parseSieveCmd (t : String) : Sieve.Cmd :=
+  match t.splitOn ":" with
+  | ["noop"] => .noop
+  | ["cap"] => .capability
+  | ["logout"] => .logout
+  | ["starttls"] => .starttls
+  | ["auth", u, ok] => .authenticate u.toNat! (ok == "1")
+  | ["unauth"] => .unauthenticate
+  | ["havespace", n, sz] => .havespace (parseNats n) sz.toNat!
+  | ["put", n, sc] => .putscript (parseNats n) (parseNats sc)
+  | ["list"] => .listscripts
+  | ["setactive", n] => .setactive (if n == "none" then none else some (parseNats n))
+  | ["get", n] => .getscript (parseNats n)
+  | ["delete", n] => .deletescript (parseNats n)
+  | ["rename", o, n] => .renamescript (parseNats o) (parseNats n)
+  | ["check", sc, c] => .checkscript (parseNats sc) (c == "1")
+  | _ => .noop
+
+def showSieveResp : Sieve.Resp → String
+  | .ok => "OK"
+  | .no code => "NO:" ++ code
+  | .bye => "BYE"
+  | .caps => "CAPS"
+  | .script sc => "SCRIPT:" ++ showNats sc
+  | .list names => "LIST:" ++ ";".intercalate (names.map (fun p => showNats p.1 ++ "=" ++ (if p.2 then "1" else "0")))
+
 def srvOut (st : DState) (r : Server.Srv × Server.Resp) : DState × String := ({ st with srv := r.1 }, showResp r.2)
 
 /-- `sync add <uid>:<flags>;... | <expunged> | <hide>`  then  `sync fork <hide> <withUid>` -/
@@ -105,6 +133,11 @@ def handle (st : DState) (line : String) : DState × String :=
       | none => []
       | some p => Sync.compare p fr (hide == "1") [] (wu == "1") false
     ({ st with prev := some fr }, if out.isEmpty then "-" else " ".intercalate (out.map showUntagged))
+  | ["sieve", "reset", maxLen, tls] => ({ st with sconn := ⟨none, tls == "1", maxLen.toNat!⟩, sstore := [] }, "ok")
+  | ["sieve", "newconn", maxLen, tls] => ({ st with sconn := ⟨none, tls == "1", maxLen.toNat!⟩ }, "ok")
+  | ["sieve", "step", c] =>
+    let r := Sieve.step st.sconn st.sstore (parseSieveCmd c)
+    ({ st with sconn := r.1, sstore := r.2.1 }, showSieveResp r.2.2 ++ " " ++ (match r.1.user with | some u => toString u | none => "-"))
   | ["conn", "reset", lo, tls] => ({ st with conn := Conn.St.init (lo == "1") (tls == "1") }, "ok")
   | ["conn", "step", c] =>
     let r := Conn.step st.conn (parseConnCmd c)
